@@ -93,6 +93,7 @@ Proof.
   { unfold n. rewrite zlen_cons, zlen_app. unfold zlen at 2. simpl. lia. }
   pose proof (zlen_nonneg b) as Hb.
   change (1 <? 0) with false. change (-1 <? 0) with true. cbv iota.
+  change (1 <? 0) with false. cbv iota.
   destruct (n <? 1) eqn:E2; [apply Z.ltb_lt in E2; lia|].
   destruct (-1 + n <? 0) eqn:E4; [apply Z.ltb_lt in E4; lia|].
   destruct (n <? -1 + n) eqn:E5; [apply Z.ltb_lt in E5; lia|].
@@ -104,13 +105,16 @@ Proof.
     destruct b; [reflexivity|]. rewrite zlen_cons in Hz. pose proof (zlen_nonneg b). lia.
 Qed.
 
+Lemma starts_with_nil s : starts_with s [] = true.
+Proof. destruct s; reflexivity. Qed.
+
 Lemma parse_kind_mid k c d b :
   parse_kind k (c :: b ++ [d]) =
   if (c =? open_of k) && (d =? close_of k) then Some (k, b) else None.
 Proof.
   unfold parse_kind, ends_with. rewrite slice_mid.
   simpl rev. rewrite rev_app_distr. simpl.
-  rewrite !andb_true_r. reflexivity.
+  rewrite !starts_with_nil, !andb_true_r. reflexivity.
 Qed.
 
 Lemma parse_kind_nil k : parse_kind k [] = None.
@@ -416,4 +420,823 @@ Proof.
   - destruct (is_space s) eqn:Hs.
     + intro H; injection H as <-. exact Hs.
     + destruct (parse_group s); intro H; [injection H as <-; exact I | discriminate].
+Qed.
+
+(* ------------------------------------------------------------------ *)
+(* insert / append / extend                                            *)
+
+Lemma norm_insert_id n i : 0 <= i <= n -> norm_insert n i = i.
+Proof.
+  intro H. unfold norm_insert.
+  destruct (i <? 0) eqn:E1; [apply Z.ltb_lt in E1; lia|]. rewrite E1.
+  destruct (n <? i) eqn:E2; [apply Z.ltb_lt in E2; lia|]. reflexivity.
+Qed.
+
+Lemma In_firstn {A} (x : A) k l : In x (firstn k l) -> In x l.
+Proof. intro H. rewrite <- (firstn_skipn k l). apply in_or_app. left. exact H. Qed.
+
+Lemma py_getitem_nonneg {A} (l : list A) j : 0 <= j < zlen l ->
+  py_getitem j l = nth_error l (Z.to_nat j).
+Proof.
+  intro H. unfold py_getitem.
+  destruct (j <? 0) eqn:E1; [apply Z.ltb_lt in E1; lia|]. rewrite E1.
+  destruct (zlen l <=? j) eqn:E2; [apply Z.leb_le in E2; lia|]. reflexivity.
+Qed.
+
+Lemma nth_firstn_app {A} (l r : list A) k j : (j < k <= length l)%nat ->
+  exists b, nth_error (firstn k l ++ r) j = Some b /\ In b l.
+Proof.
+  intros [H1 H2].
+  assert (Hl : length (firstn k l) = k) by (apply firstn_length_le; exact H2).
+  rewrite nth_error_app1 by lia.
+  destruct (nth_error (firstn k l) j) as [b|] eqn:E.
+  - exists b. split; [reflexivity|]. apply nth_error_In in E. eapply In_firstn; exact E.
+  - apply nth_error_None in E. lia.
+Qed.
+
+Lemma insert_tail_ok lst all it lst1 i' :
+  Inv (lst, all) -> ws_item it ->
+  Permutation lst1 (item_groups it ++ lst) ->
+  0 <= i' ->
+  (1 <= i' -> 1 < zlen lst1 -> exists b, py_getitem (i' - 1) lst1 = Some b /\ In b lst) ->
+  exists all1, shadow_insert lst1 all i' it = ((lst1, all1), ONone) /\ Inv (lst1, all1).
+Proof.
+  intros HI Hit Hp H0 Hget. unfold shadow_insert.
+  destruct (zlen lst1 <=? 1) eqn:E1.
+  - exists (all ++ [it]). split; [reflexivity|].
+    eapply Inv_insert; [exact HI | exact Hit | exact Hp |].
+    symmetry. apply Permutation_cons_append.
+  - destruct (i' =? 0) eqn:E2.
+    + exists (py_insert 0 it all). split; [reflexivity|].
+      eapply Inv_insert; [exact HI | exact Hit | exact Hp | apply py_insert_perm].
+    + apply Z.leb_gt in E1. apply Z.eqb_neq in E2.
+      destruct Hget as (b & Hb & Hin); [lia | lia |]. rewrite Hb.
+      destruct (index_found (lst, all) b HI Hin) as (a1 & a2 & Hall & Hidx).
+      simpl in Hidx. rewrite Hidx.
+      eexists. split; [reflexivity|].
+      eapply Inv_insert; [exact HI | exact Hit | exact Hp | apply py_insert_perm].
+Qed.
+
+Lemma m_insert_ok st i a : Inv st ->
+  fst (fst (m_insert st i a)) = fst (ref_insert (fst st) i a) /\
+  snd (m_insert st i a) = snd (ref_insert (fst st) i a) /\
+  Inv (fst (m_insert st i a)).
+Proof.
+  intros HI. destruct st as [lst all].
+  pose proof (coerce_classify a) as Hc. unfold ref_insert. simpl fst.
+  destruct (spec_classify a) as [g| |] eqn:Hs.
+  - (* a group or a coercible string *)
+    unfold m_insert. rewrite Hc. cbv zeta.
+    set (n := zlen lst).
+    set (i' := if i <? 0 then Z.max 0 (n + i) else Z.min i n).
+    assert (Hn : 0 <= n) by apply zlen_nonneg.
+    assert (Hi' : 0 <= i' <= n).
+    { unfold i'. destruct (i <? 0) eqn:E; [apply Z.ltb_lt in E | apply Z.ltb_ge in E]; lia. }
+    assert (Hk : Z.max 0 (Z.min n (if i <? 0 then i + n else i)) = i').
+    { unfold i'. destruct (i <? 0) eqn:E; [apply Z.ltb_lt in E | apply Z.ltb_ge in E]; lia. }
+    rewrite Hk.
+    assert (Hl1 : py_insert i' g lst = firstn (Z.to_nat i') lst ++ g :: skipn (Z.to_nat i') lst).
+    { unfold py_insert. fold n. rewrite norm_insert_id by exact Hi'. apply insert_at_spec. }
+    set (lst1 := py_insert i' g lst) in *.
+    destruct (insert_tail_ok lst all (IG g) lst1 i') as (all1 & Heq & HI1).
+    + exact HI.
+    + exact I.
+    + simpl. unfold lst1. apply py_insert_perm.
+    + lia.
+    + intros H1 _.
+      assert (Hz : zlen lst1 = n + 1).
+      { rewrite Hl1. rewrite zlen_app, zlen_cons.
+        unfold zlen. rewrite firstn_length_le, skipn_length by (unfold n, zlen in Hi'; lia).
+        unfold n, zlen in *. lia. }
+      rewrite py_getitem_nonneg by lia. rewrite Hl1.
+      apply nth_firstn_app. unfold n, zlen in Hi'. lia.
+    + rewrite Heq. simpl. rewrite <- Hl1. auto.
+  - (* whitespace *)
+    destruct Hc as (s & -> & Hsp & Hco).
+    unfold m_insert. rewrite Hco. cbv zeta.
+    set (n := zlen lst).
+    set (i' := if i <? 0 then Z.max 0 (n + i) else Z.min i n).
+    assert (Hn : 0 <= n) by apply zlen_nonneg.
+    assert (Hi' : 0 <= i' <= n).
+    { unfold i'. destruct (i <? 0) eqn:E; [apply Z.ltb_lt in E | apply Z.ltb_ge in E]; lia. }
+    destruct (insert_tail_ok lst all (IW s) lst i') as (all1 & Heq & HI1).
+    + exact HI.
+    + exact Hsp.
+    + simpl. apply Permutation_refl.
+    + lia.
+    + intros H1 H2. fold n in H2.
+      rewrite py_getitem_nonneg by (fold n; lia).
+      destruct (nth_error_in_range lst (i' - 1)) as [b Hb]; [fold n; lia|].
+      exists b. split; [exact Hb|]. eapply nth_error_In; exact Hb.
+    + fold n. rewrite Heq. simpl. auto.
+  - unfold m_insert. rewrite Hc. simpl. auto.
+Qed.
+
+Lemma ref_insert_end l a : ref_insert l (zlen l) a = ref_extend l [a].
+Proof.
+  unfold ref_insert. simpl. destruct (spec_classify a) as [g| |]; try reflexivity.
+  pose proof (zlen_nonneg l) as Hn.
+  destruct (zlen l <? 0) eqn:E; [apply Z.ltb_lt in E; lia|].
+  replace (Z.to_nat (Z.max 0 (Z.min (zlen l) (zlen l)))) with (length l) by (unfold zlen; lia).
+  rewrite firstn_all, skipn_all. reflexivity.
+Qed.
+
+Lemma m_append_ok st a : Inv st ->
+  fst (fst (m_append st a)) = fst (ref_extend (fst st) [a]) /\
+  snd (m_append st a) = snd (ref_extend (fst st) [a]) /\
+  Inv (fst (m_append st a)).
+Proof.
+  intro HI. unfold m_append. rewrite <- ref_insert_end. apply m_insert_ok. exact HI.
+Qed.
+
+Lemma m_extend_ok l : forall st, Inv st ->
+  fst (fst (m_extend st l)) = fst (ref_extend (fst st) l) /\
+  snd (m_extend st l) = snd (ref_extend (fst st) l) /\
+  Inv (fst (m_extend st l)).
+Proof.
+  induction l as [|a t IH]; intros st HI.
+  - simpl. auto.
+  - destruct (m_append_ok st a HI) as (H1 & H2 & H3).
+    cbn [m_extend ref_extend] in *.
+    destruct (m_append st a) as [st1 o1] eqn:Ea. cbn [fst snd] in *.
+    destruct (spec_classify a) as [g| |]; cbn [fst snd] in *; subst o1.
+    + rewrite <- H1. apply IH. exact H3.
+    + rewrite <- H1. apply IH. exact H3.
+    + auto.
+Qed.
+
+Lemma ref_extend_groups v : forall l, ref_extend l (map AG v) = (l ++ v, ONone).
+Proof.
+  induction v as [|g t IH]; intro l; simpl.
+  - rewrite app_nil_r. reflexivity.
+  - rewrite IH, <- app_assoc. reflexivity.
+Qed.
+
+(* ------------------------------------------------------------------ *)
+(* remove / pop                                                        *)
+
+Lemma py_remove_false {A} (p : A -> bool) l : (forall x, p x = false) -> py_remove p l = None.
+Proof.
+  intro H. induction l as [|y t IH]; simpl; [reflexivity|]. rewrite H, IH. reflexivity.
+Qed.
+
+Lemma m_remove_ok st a : Inv st ->
+  fst (fst (m_remove st a)) = fst (ref_step (fst st) (OpRemove a)) /\
+  snd (m_remove st a) = snd (ref_step (fst st) (OpRemove a)) /\
+  Inv (fst (m_remove st a)).
+Proof.
+  destruct st as [lst all]; intros HI. pose proof (coerce_classify a) as Hc.
+  unfold ref_step. simpl fst.
+  destruct (spec_classify a) as [g| |].
+  - unfold m_remove. rewrite Hc. rewrite remove_first_py.
+    rewrite (py_remove_ext (fun g0 => item_eqb (IG g0) (IG g)) (fun x => group_eqb x g))
+      by (intro; apply item_eqb_group_eqb).
+    destruct HI as [Hp Hw]. simpl in Hp, Hw.
+    destruct (py_remove (fun x => item_eqb x (IG g)) all) as [all1|] eqn:Ea;
+      destruct (py_remove (fun x => group_eqb x g) lst) as [lst1|] eqn:El.
+    + simpl. split; [reflexivity|]. split; [reflexivity|].
+      destruct (py_remove_some _ _ _ Ea) as (a1 & x & a2 & -> & -> & Hx).
+      destruct (py_remove_some _ _ _ El) as (l1 & y & l2 & -> & -> & Hy).
+      apply group_eqb_eq in Hy. subst y.
+      assert (Hwx : ws_item x) by (rewrite Forall_forall in Hw; apply Hw, in_elt).
+      apply ws_item_eq_group in Hx; [|exact Hwx]. subst x.
+      split; simpl.
+      * eapply inv_remove_one; exact Hp.
+      * eapply Forall_remove_mid; exact Hw.
+    + exfalso.
+      destruct (py_remove_some _ _ _ Ea) as (a1 & x & a2 & -> & -> & Hx).
+      assert (Hwx : ws_item x) by (rewrite Forall_forall in Hw; apply Hw, in_elt).
+      apply ws_item_eq_group in Hx; [|exact Hwx]. subst x.
+      assert (Hin : In g lst).
+      { eapply Permutation_in; [exact Hp|]. apply groups_of_in. apply in_elt. }
+      pose proof (py_remove_none _ _ El _ Hin) as Hf. simpl in Hf.
+      assert (Ht : group_eqb g g = true) by (apply group_eqb_eq; reflexivity). congruence.
+    + exfalso.
+      destruct (py_remove_some _ _ _ El) as (l1 & y & l2 & -> & -> & Hy).
+      apply group_eqb_eq in Hy. subst y.
+      assert (Hin : In (IG g) all).
+      { apply groups_of_in. eapply Permutation_in; [symmetry; exact Hp|]. apply in_elt. }
+      pose proof (py_remove_none _ _ Ea _ Hin) as Hf. simpl in Hf.
+      assert (Ht : item_eqb (IG g) (IG g) = true) by (apply item_eqb_groups; reflexivity).
+      congruence.
+    + simpl. split; [reflexivity|]. split; [reflexivity|]. split; assumption.
+  - destruct Hc as (s & -> & Hsp & Hco). unfold m_remove. rewrite Hco.
+    rewrite (py_remove_false (fun g => item_eqb (IG g) (IW s)))
+      by (intro; apply group_eq_ws_false; exact Hsp).
+    destruct (py_remove (fun x => item_eqb x (IW s)) all) as [all1|] eqn:Ea.
+    + simpl. split; [reflexivity|]. split; [reflexivity|].
+      destruct (py_remove_some _ _ _ Ea) as (a1 & x & a2 & -> & -> & Hx).
+      destruct HI as [Hp Hw]. simpl in Hp, Hw.
+      destruct x as [h|w].
+      * rewrite group_eq_ws_false in Hx by exact Hsp. discriminate.
+      * split; simpl.
+        -- rewrite groups_of_app in *. simpl in Hp. exact Hp.
+        -- eapply Forall_remove_mid; exact Hw.
+    + simpl. auto.
+  - unfold m_remove. rewrite Hc. simpl. auto.
+Qed.
+
+Lemma py_pop_at_split {A} (a1 : list A) x a2 :
+  py_pop (Z.of_nat (length a1)) (a1 ++ x :: a2) = Some (x, a1 ++ a2).
+Proof.
+  unfold py_pop.
+  assert (Hz : zlen (a1 ++ x :: a2) = Z.of_nat (length a1) + zlen a2 + 1).
+  { rewrite zlen_app, zlen_cons. unfold zlen. lia. }
+  pose proof (zlen_nonneg a2) as H2.
+  destruct (zlen (a1 ++ x :: a2) =? 0) eqn:E0; [apply Z.eqb_eq in E0; lia|].
+  destruct (Z.of_nat (length a1) <? 0) eqn:E1; [apply Z.ltb_lt in E1; lia|]. rewrite E1.
+  destruct (zlen (a1 ++ x :: a2) <=? Z.of_nat (length a1)) eqn:E2; [apply Z.leb_le in E2; lia|].
+  simpl orb. cbv iota. rewrite Nat2Z.id. apply pop_at_app.
+Qed.
+
+Lemma m_pop_ok st oi : Inv st ->
+  fst (fst (m_pop st oi)) = fst (ref_step (fst st) (OpPop oi)) /\
+  snd (m_pop st oi) = snd (ref_step (fst st) (OpPop oi)) /\
+  Inv (fst (m_pop st oi)).
+Proof.
+  destruct st as [lst all]; intros HI.
+  unfold m_pop, ref_step. cbn [fst]. cbv zeta.
+  set (i := match oi with Some i => i | None => -1 end).
+  rewrite py_pop_ref.
+  destruct (ref_index (zlen lst) i) as [k|]; [|simpl; auto].
+  destruct (nth_error lst k) as [g|] eqn:En; [|simpl; auto].
+  destruct (nth_error_split lst k En) as (l1 & l2 & Hl & Hlen).
+  assert (Hin : In g lst) by (eapply nth_error_In; exact En).
+  destruct (index_found (lst, all) g HI Hin) as (a1 & a2 & Hall & Hidx).
+  simpl in Hall, Hidx. subst all. rewrite Hidx. rewrite py_pop_at_split.
+  cbn [fst snd]. split; [|split; [reflexivity|]].
+  - subst k. rewrite Hl, firstn_skipn_split. reflexivity.
+  - subst k. rewrite Hl, firstn_skipn_split.
+    destruct HI as [Hp Hw]. simpl in Hp, Hw. subst lst. split; simpl.
+    + eapply inv_remove_one; exact Hp.
+    + eapply Forall_remove_mid; exact Hw.
+Qed.
+
+(* ------------------------------------------------------------------ *)
+(* one operation                                                       *)
+
+Lemma existsb_ext' {A} (p q : A -> bool) l : (forall x, p x = q x) -> existsb p l = existsb q l.
+Proof.
+  intro H. induction l as [|y t IH]; simpl; [reflexivity|]. rewrite H, IH. reflexivity.
+Qed.
+
+Lemma ref_extend_out args : forall l,
+  snd (ref_extend l args) = ONone \/ snd (ref_extend l args) = ETypeError.
+Proof.
+  induction args as [|a t IH]; intro l; simpl; [auto|].
+  destruct (spec_classify a); auto.
+Qed.
+
+Lemma ref_obs_fix l o : obs_out (snd (ref_step l o)) = snd (ref_step l o).
+Proof.
+  destruct o as [a|args|i a|a|i| | |i|lo hi|a]; cbn [ref_step].
+  - destruct (ref_extend_out [a] l) as [H|H]; rewrite H; reflexivity.
+  - destruct (ref_extend_out args l) as [H|H]; rewrite H; reflexivity.
+  - unfold ref_insert. destruct (spec_classify a); reflexivity.
+  - destruct (spec_classify a) as [g| |]; [destruct (remove_first g l)| |]; reflexivity.
+  - destruct (ref_index (zlen l) _) as [k|]; [destruct (nth_error l k)|]; reflexivity.
+  - reflexivity.
+  - reflexivity.
+  - destruct (ref_index (zlen l) i) as [k|]; [destruct (nth_error l k)|]; reflexivity.
+  - reflexivity.
+  - destruct a; reflexivity.
+Qed.
+
+Lemma step_all st o : Inv st ->
+  Inv (fst (m_step st o)) /\
+  (fst (fst (m_step st o)) = fst (ref_step (fst st) o) /\
+   obs_out (snd (m_step st o)) = snd (ref_step (fst st) o)).
+Proof.
+  intro HI.
+  destruct o as [a|args|i a|a|i| | |i|lo hi|a].
+  - destruct (m_append_ok st a HI) as (H1 & H2 & H3). cbn [m_step ref_step].
+    split; [exact H3|]. split; [exact H1|]. rewrite H2.
+    apply (ref_obs_fix (fst st) (OpAppend a)).
+  - destruct (m_extend_ok args st HI) as (H1 & H2 & H3). cbn [m_step ref_step].
+    split; [exact H3|]. split; [exact H1|]. rewrite H2.
+    apply (ref_obs_fix (fst st) (OpExtend args)).
+  - destruct (m_insert_ok st i a HI) as (H1 & H2 & H3). cbn [m_step ref_step].
+    split; [exact H3|]. split; [exact H1|]. rewrite H2.
+    apply (ref_obs_fix (fst st) (OpInsert i a)).
+  - destruct (m_remove_ok st a HI) as (H1 & H2 & H3). cbn [m_step].
+    split; [exact H3|]. split; [exact H1|]. rewrite H2.
+    apply (ref_obs_fix (fst st) (OpRemove a)).
+  - destruct (m_pop_ok st i HI) as (H1 & H2 & H3). cbn [m_step].
+    split; [exact H3|]. split; [exact H1|]. rewrite H2.
+    apply (ref_obs_fix (fst st) (OpPop i)).
+  - cbn [m_step ref_step fst snd]. split; [|auto].
+    destruct HI as [Hp Hw]. split; cbn [fst snd].
+    + rewrite groups_of_rev.
+      eapply Permutation_trans; [symmetry; apply Permutation_rev|].
+      eapply Permutation_trans; [exact Hp|]. apply Permutation_rev.
+    + eapply Permutation_Forall; [apply Permutation_rev | exact Hw].
+  - cbn [m_step ref_step fst snd]. split; [apply Inv_empty | auto].
+  - cbn [m_step ref_step]. rewrite py_getitem_ref.
+    destruct (ref_index (zlen (fst st)) i) as [k|]; [destruct (nth_error (fst st) k)|];
+      cbn [fst snd obs_out]; auto.
+  - cbn [m_step ref_step].
+    destruct (m_extend_ok (map AG (py_slice lo hi (fst st))) empty_state Inv_empty)
+      as (H1 & H2 & _).
+    rewrite ref_extend_groups in H1, H2. cbn [fst snd empty_state app] in H1, H2.
+    unfold m_new. destruct (m_extend empty_state (map AG (py_slice lo hi (fst st)))) as [st' o'].
+    cbn [fst snd] in H1, H2. subst o'. cbn [fst snd obs_out].
+    split; [exact HI|]. split; [reflexivity|]. rewrite H1. reflexivity.
+  - cbn [m_step fst snd]. split; [exact HI|].
+    destruct a as [g|s]; cbn [ref_step fst snd obs_out]; split; try reflexivity; f_equal;
+      unfold m_contains; apply existsb_ext'; intro x.
+    + rewrite item_eqb_group_eqb. apply group_eqb_sym.
+    + apply pstr_eqb_sym.
+Qed.
+
+Lemma step_inv st o : Inv st -> Inv (fst (m_step st o)).
+Proof. intro H. apply (step_all st o H). Qed.
+
+Lemma obs_step st o : Inv st ->
+  obs_model (m_step st o) = obs_ref (ref_step (fst st) o).
+Proof.
+  intros HI. destruct (step_all st o HI) as [_ [H1 H2]].
+  unfold obs_model, obs_ref, m_len, m_str. rewrite py_join_concat, H1, H2. reflexivity.
+Qed.
+
+(* ------------------------------------------------------------------ *)
+(* runs                                                                *)
+
+Lemma refines_from_inv ops : forall st, Inv st ->
+  map obs_model (m_run st ops) = map obs_ref (ref_run (fst st) ops).
+Proof.
+  induction ops as [|o t IH]; intros st HI; [reflexivity|].
+  cbn [m_run ref_run map]. f_equal.
+  - apply obs_step; assumption.
+  - destruct (step_all st o HI) as [HI' [H1 _]].
+    rewrite <- H1. apply IH; assumption.
+Qed.
+
+Lemma run_inv ops : forall st, Inv st -> Forall (fun r => Inv (fst r)) (m_run st ops).
+Proof.
+  induction ops as [|o t IH]; intros st HI; cbn [m_run]; constructor.
+  - apply step_inv. exact HI.
+  - apply IH. apply step_inv. exact HI.
+Qed.
+
+Lemma m_new_ok init :
+  fst (fst (m_new init)) = fst (ref_extend [] init) /\
+  snd (m_new init) = snd (ref_extend [] init) /\
+  Inv (fst (m_new init)).
+Proof. unfold m_new. apply (m_extend_ok init empty_state Inv_empty). Qed.
+
+Lemma m_new_groups init : fst (fst (m_new (map AG init))) = init /\ snd (m_new (map AG init)) = ONone.
+Proof.
+  destruct (m_new_ok (map AG init)) as (H1 & H2 & _).
+  rewrite ref_extend_groups in H1, H2. auto.
+Qed.
+
+Lemma refines : forall (init : list group) (ops : list op),
+  map obs_model (m_run (fst (m_new (map AG init))) ops) = map obs_ref (ref_run init ops).
+Proof.
+  intros init ops. destruct (m_new_groups init) as [H1 _].
+  rewrite <- H1 at 2. apply refines_from_inv. apply m_new_ok.
+Qed.
+
+(* same, the constructor given any mixture of groups, strings and whitespace *)
+Lemma refines_args : forall (init : list arg) (ops : list op),
+  map obs_model (m_run (fst (m_new init)) ops) =
+  map obs_ref (ref_run (fst (ref_extend [] init)) ops).
+Proof.
+  intros init ops. destruct (m_new_ok init) as (H1 & _ & HI).
+  rewrite <- H1. apply refines_from_inv; assumption.
+Qed.
+
+Definition ga : group := (false, [97]).       (* {a} *)
+Definition gb : group := (false, [98]).       (* {b} *)
+Definition ka : group := (true, [97]).        (* [a] *)
+
+Lemma all_invariant : forall (init : list arg) (ops : list op) st o,
+  In (st, o) (m_new init :: m_run (fst (m_new init)) ops) ->
+  Permutation (groups_of (snd st)) (fst st) /\ Forall ws_item (snd st).
+Proof.
+  intros init ops st o Hin. destruct (m_new_ok init) as (_ & _ & HI).
+  destruct Hin as [Hin|Hin].
+  - rewrite Hin in HI. exact HI.
+  - pose proof (run_inv ops _ HI) as HF. rewrite Forall_forall in HF.
+    apply (HF _ Hin).
+Qed.
+
+Lemma str_is_concat : forall (st : state) (name : pstr),
+  m_str st = concat (map render (fst st)) /\
+  cmd_str name st = 92 :: name ++ concat (map render (fst st)).
+Proof.
+  intros st name. unfold cmd_str, m_str. rewrite py_join_concat. auto.
+Qed.
+
+(* ------------------------------------------------------------------ *)
+(* rejection                                                           *)
+
+Lemma m_insert_reject st i a : snd (m_insert st i a) = ETypeError ->
+  coerce a = None /\ m_insert st i a = (st, ETypeError).
+Proof.
+  unfold m_insert. destruct (coerce a) as [it|]; [|auto].
+  destruct st as [lst all]. cbv zeta. unfold shadow_insert.
+  destruct (zlen _ <=? 1); [simpl; discriminate|].
+  destruct (_ =? 0); [simpl; discriminate|].
+  destruct (py_getitem _ _); [|simpl; discriminate].
+  destruct (py_index _ _); simpl; discriminate.
+Qed.
+
+Definition reject_statement : Prop :=
+  forall (st : state) (o : op), snd (m_step st o) = ETypeError -> fst (m_step st o) = st.
+
+Lemma reject_partial : forall (st : state) (o : op),
+  is_extend o = false -> snd (m_step st o) = ETypeError -> fst (m_step st o) = st.
+Proof.
+  intros st o He H.
+  destruct o as [a|args|i a|a|i| | |i|lo hi|a]; cbn [m_step] in *.
+  - unfold m_append in *. apply m_insert_reject in H. destruct H as [_ ->]. reflexivity.
+  - discriminate.
+  - apply m_insert_reject in H. destruct H as [_ ->]. reflexivity.
+  - revert H. unfold m_remove. destruct (coerce a) as [it|]; [|reflexivity].
+    destruct st as [lst all].
+    destruct (py_remove _ all); [destruct (py_remove _ lst)|]; simpl; discriminate.
+  - revert H. unfold m_pop. destruct st as [lst all]. cbv zeta.
+    destruct (py_pop _ lst) as [[g l1]|]; [|simpl; discriminate].
+    destruct (py_index _ all) as [j|]; [|simpl; discriminate].
+    destruct (py_pop _ all) as [[it a1]|]; simpl; discriminate.
+  - discriminate.
+  - discriminate.
+  - revert H. destruct (py_getitem i (fst st)); simpl; discriminate.
+  - destruct (m_new _) as [st' o']. destruct o'; reflexivity.
+  - discriminate.
+Qed.
+
+(* extend stops at the first malformed string; what came before it stays *)
+Lemma extend_reject l : forall st st',
+  m_extend st l = (st', ETypeError) ->
+  exists pre bad post, l = pre ++ bad :: post /\ coerce bad = None /\
+                       m_extend st pre = (st', ONone).
+Proof.
+  induction l as [|a t IH]; intros st st' H; cbn [m_extend] in H; [discriminate|].
+  destruct (m_append st a) as [st1 o1] eqn:Ea.
+  destruct o1; try discriminate.
+  - destruct (IH st1 st' H) as (pre & bad & post & -> & Hb & Hpre).
+    exists (a :: pre), bad, post. split; [reflexivity|]. split; [exact Hb|].
+    cbn [m_extend]. rewrite Ea. exact Hpre.
+  - injection H as <-.
+    assert (Hs : snd (m_insert st (zlen (fst st)) a) = ETypeError).
+    { unfold m_append in Ea. rewrite Ea. reflexivity. }
+    apply m_insert_reject in Hs. destruct Hs as [Hc Hm].
+    unfold m_append in Ea. rewrite Hm in Ea. injection Ea as <-.
+    exists [], a, t. auto.
+Qed.
+
+Lemma reject_refuted : exists (st : state) (o : op),
+  snd (m_step st o) = ETypeError /\ fst (m_step st o) <> st.
+Proof.
+  exists empty_state, (OpExtend [AS [123; 97; 125]; AS [120]]).
+  split; [reflexivity|]. vm_compute. discriminate.
+Qed.
+
+Lemma reject_statement_false : ~ reject_statement.
+Proof.
+  intro H. destruct reject_refuted as (st & o & H1 & H2). apply H2. apply H. exact H1.
+Qed.
+
+(* ------------------------------------------------------------------ *)
+(* examples: the hypotheses above are satisfiable on non-trivial inputs, *)
+(* and the shadow list can drift from the list                           *)
+
+Definition s_a_open : pstr := [123; 97].          (* '{a'  *)
+Definition s_b_grp : pstr := [91; 98; 93].        (* '[b]' *)
+Definition s_sp : pstr := [32].                   (* ' '   *)
+
+Definition demo_ops : list op :=
+  [OpAppend (AS s_b_grp); OpInsert (-5) (AG gb); OpInsert 1 (AS s_a_open); OpAppend (AS s_sp);
+   OpRemove (AG ga); OpPop (Some (-1)); OpReverse; OpSlice (Some (-2)) None; OpGet 7;
+   OpExtend [AG ga; AS s_a_open; AG gb]].
+
+Example demo_run :
+  map obs_ref (ref_run [ga; ka; ga] demo_ops) =
+  [ ([ga; ka; ga; (true, [98])], 4, [123;97;125; 91;97;93; 123;97;125; 91;98;93], ONone);
+    ([gb; ga; ka; ga; (true, [98])], 5,
+       [123;98;125; 123;97;125; 91;97;93; 123;97;125; 91;98;93], ONone);
+    ([gb; ga; ka; ga; (true, [98])], 5,
+       [123;98;125; 123;97;125; 91;97;93; 123;97;125; 91;98;93], ETypeError);
+    ([gb; ga; ka; ga; (true, [98])], 5,
+       [123;98;125; 123;97;125; 91;97;93; 123;97;125; 91;98;93], ONone);
+    ([gb; ka; ga; (true, [98])], 4, [123;98;125; 91;97;93; 123;97;125; 91;98;93], ONone);
+    ([gb; ka; ga], 3, [123;98;125; 91;97;93; 123;97;125], OVal (IG (true, [98])));
+    ([ga; ka; gb], 3, [123;97;125; 91;97;93; 123;98;125], ONone);
+    ([ga; ka; gb], 3, [123;97;125; 91;97;93; 123;98;125], OArgs ([ka; gb], []));
+    ([ga; ka; gb], 3, [123;97;125; 91;97;93; 123;98;125], EIndexError);
+    ([ga; ka; gb; ga], 4, [123;97;125; 91;97;93; 123;98;125; 123;97;125], ETypeError) ].
+Proof. vm_compute. reflexivity. Qed.
+
+Example demo_refines :
+  map obs_model (m_run (fst (m_new (map AG [ga; ka; ga]))) demo_ops) =
+  map obs_ref (ref_run [ga; ka; ga] demo_ops).
+Proof. vm_compute. reflexivity. Qed.
+
+Example reject_partial_hyp :
+  let st := fst (m_new [AG ga; AS s_sp; AG gb]) in
+  let o := OpInsert 1 (AS s_a_open) in
+  is_extend o = false /\ snd (m_step st o) = ETypeError /\ fst (m_step st o) = st /\
+  fst st = [ga; gb].
+Proof. vm_compute. auto. Qed.
+
+Example extend_reject_hyp :
+  m_extend empty_state [AG ga; AS s_b_grp; AS s_a_open; AG gb] =
+  (([ga; (true, [98])], [IG ga; IG (true, [98])]), ETypeError).
+Proof. vm_compute. reflexivity. Qed.
+
+Example all_invariant_hyp :
+  In (([gb; ga], [IW s_sp; IG gb; IG ga]), OVal (IG ga))
+     (m_new [AG ga; AS s_sp; AG gb; AG ga]
+      :: m_run (fst (m_new [AG ga; AS s_sp; AG gb; AG ga])) [OpReverse; OpPop (Some 0)]).
+Proof. vm_compute. auto. Qed.
+
+(* Drift 1: already the constructor orders `.all` differently from the list when a
+   textually equal group occurs twice: TexArgs(['{a}','{a}','{b}']).all is
+   [{a},{b},{a}] because self.all.index(before) finds the first '{a}'. *)
+Example drift_constructor :
+  let st := fst (m_new (map AG [ga; ga; gb])) in
+  fst st = [ga; ga; gb] /\ groups_of (snd st) = [ga; gb; ga].
+Proof. vm_compute. auto. Qed.
+
+(* Drift 2: pop(2) on [{a},{b},{a}] removes the last element of the list but the
+   first '{a}' of `.all`. *)
+Example drift_pop :
+  m_step ([ga; gb; ga], [IG ga; IG gb; IG ga]) (OpPop (Some 2)) =
+  (([ga; gb], [IG gb; IG ga]), OVal (IG ga)).
+Proof. vm_compute. reflexivity. Qed.
+
+(* Drift 3: whitespace does not keep its place: TexArgs(['{a}',' ','{b}']).all is
+   [{a},{b},' ']. *)
+Example drift_whitespace :
+  snd (fst (m_new [AG ga; AS s_sp; AG gb])) = [IG ga; IG gb; IW s_sp].
+Proof. vm_compute. reflexivity. Qed.
+
+(* remove(' ') raises ValueError (from list.remove) after self.all.remove(' ')
+   has already deleted the whitespace from `.all`; the list is untouched. *)
+Example ws_remove_half_done :
+  m_step ([ga], [IG ga; IW s_sp]) (OpRemove (AS s_sp)) = (([ga], [IG ga]), EValueError).
+Proof. vm_compute. reflexivity. Qed.
+
+(* ------------------------------------------------------------------ *)
+(* when is the shadow list exactly in step with the list?               *)
+(* As long as no two elements of the list are textually equal.          *)
+
+Definition synced (st : state) : Prop := groups_of (snd st) = fst st.
+
+Lemma nodup_split_unique {A} (g : A) : forall x1 x2 l1 l2,
+  NoDup (l1 ++ g :: l2) -> x1 ++ g :: x2 = l1 ++ g :: l2 -> x1 = l1 /\ x2 = l2.
+Proof.
+  induction x1 as [|h x1 IH]; intros x2 l1 l2 Hnd Heq; destruct l1 as [|h' l1]; simpl in *.
+  - injection Heq as ->. auto.
+  - injection Heq as <- ->. exfalso. inversion Hnd as [|? ? Hni _]; subst.
+    apply Hni. apply in_elt.
+  - injection Heq as -> <-. exfalso. inversion Hnd as [|? ? Hni _]; subst.
+    apply Hni. apply in_elt.
+  - injection Heq as -> Heq. inversion Hnd as [|? ? _ Hnd']; subst.
+    destruct (IH x2 l1 l2 Hnd' Heq) as [-> ->]. auto.
+Qed.
+
+Lemma groups_of_insert_ws k w all : groups_of (insert_at k (IW w) all) = groups_of all.
+Proof.
+  rewrite insert_at_spec, groups_of_app. simpl.
+  rewrite <- groups_of_app, firstn_skipn. reflexivity.
+Qed.
+
+Lemma firstn_S_split {A} (l1 : list A) x l2 :
+  firstn (S (length l1)) (l1 ++ x :: l2) = l1 ++ [x] /\
+  skipn (S (length l1)) (l1 ++ x :: l2) = l2.
+Proof.
+  replace (S (length l1)) with (length (l1 ++ [x])) by (rewrite app_length; simpl; lia).
+  replace (l1 ++ x :: l2) with ((l1 ++ [x]) ++ l2) by (rewrite <- app_assoc; reflexivity).
+  rewrite firstn_app, skipn_app, firstn_all, skipn_all, Nat.sub_diag. simpl.
+  rewrite app_nil_r. auto.
+Qed.
+
+Lemma groups_of_remove g all : Forall ws_item all ->
+  option_map groups_of (py_remove (fun x => item_eqb x (IG g)) all) =
+  py_remove (fun x => group_eqb x g) (groups_of all).
+Proof.
+  induction 1 as [|x t Hx Ht IH]; [reflexivity|].
+  destruct x as [h|w]; cbn [py_remove groups_of].
+  - rewrite item_eqb_group_eqb. destruct (group_eqb h g); [reflexivity|].
+    rewrite <- IH. destruct (py_remove _ t); reflexivity.
+  - assert (Hf : item_eqb (IW w) (IG g) = false).
+    { destruct (item_eqb (IW w) (IG g)) eqn:E; [|reflexivity].
+      apply (ws_item_eq_group (IW w) g Hx) in E. discriminate. }
+    rewrite Hf, <- IH. destruct (py_remove _ t); reflexivity.
+Qed.
+
+Lemma sync_insert st i a : Forall ws_item (snd st) -> synced st -> NoDup (fst st) ->
+  synced (fst (m_insert st i a)).
+Proof.
+  destruct st as [lst all]. unfold synced. cbn [fst snd]. intros Hw Hs Hnd.
+  assert (HI : Inv (lst, all)) by (split; cbn [fst snd]; [rewrite Hs; apply Permutation_refl | exact Hw]).
+  unfold m_insert. destruct (coerce a) as [it|] eqn:Hc; [|exact Hs].
+  cbv zeta.
+  set (n := zlen lst).
+  set (i' := if i <? 0 then Z.max 0 (n + i) else Z.min i n).
+  assert (Hn : 0 <= n) by apply zlen_nonneg.
+  assert (Hi' : 0 <= i' <= n).
+  { unfold i'. destruct (i <? 0) eqn:E; [apply Z.ltb_lt in E | apply Z.ltb_ge in E]; lia. }
+  assert (Hl1 : forall g, py_insert i' g lst = firstn (Z.to_nat i') lst ++ g :: skipn (Z.to_nat i') lst).
+  { intro g. unfold py_insert. fold n. rewrite norm_insert_id by exact Hi'. apply insert_at_spec. }
+  set (lst1 := match it with IG g => py_insert i' g lst | IW _ => lst end).
+  unfold shadow_insert.
+  destruct (zlen lst1 <=? 1) eqn:E1.
+  { (* at most one element afterwards *)
+    cbn [fst snd]. rewrite groups_of_app, Hs. apply Z.leb_le in E1.
+    destruct it as [g|w]; unfold lst1 in *; simpl.
+    - rewrite Hl1 in *. rewrite zlen_app, zlen_cons in E1.
+      pose proof (zlen_nonneg (firstn (Z.to_nat i') lst)).
+      pose proof (zlen_nonneg (skipn (Z.to_nat i') lst)).
+      assert (Hz : n = 0).
+      { unfold n. rewrite <- (firstn_skipn (Z.to_nat i') lst), zlen_app. lia. }
+      destruct lst as [|x t]; [|unfold n in Hz; rewrite zlen_cons in Hz; pose proof (zlen_nonneg t); lia].
+      rewrite firstn_nil, skipn_nil. reflexivity.
+    - apply app_nil_r. }
+  destruct (i' =? 0) eqn:E2.
+  { apply Z.eqb_eq in E2. cbn [fst snd].
+    unfold py_insert at 1. rewrite norm_insert_id by (pose proof (zlen_nonneg all); lia).
+    simpl insert_at. destruct it as [g|w]; unfold lst1; simpl.
+    - rewrite Hl1, E2. simpl. rewrite Hs. reflexivity.
+    - exact Hs. }
+  apply Z.leb_gt in E1. apply Z.eqb_neq in E2.
+  (* before = lst[i'-1], unique in lst *)
+  assert (Hlen1 : n <= zlen lst1).
+  { destruct it as [g|w]; unfold lst1.
+    - rewrite Hl1, zlen_app, zlen_cons. unfold n.
+      rewrite <- (firstn_skipn (Z.to_nat i') lst) at 1. rewrite zlen_app. lia.
+    - fold n. lia. }
+  destruct (nth_error_in_range lst (i' - 1)) as [b Hb]; [fold n; lia|].
+  destruct (nth_error_split lst _ Hb) as (l1 & l2 & Hl & Hlen).
+  assert (Hk : Z.to_nat i' = S (length l1)) by lia.
+  assert (Hget : py_getitem (i' - 1) lst1 = Some b).
+  { destruct it as [g|w]; unfold lst1 in *.
+    - rewrite py_getitem_nonneg by lia.
+      rewrite Hl1, Hk, Hl. destruct (firstn_S_split l1 b l2) as [-> ->].
+      rewrite <- Hlen. rewrite <- app_assoc. rewrite nth_error_app2 by lia.
+      rewrite Nat.sub_diag. reflexivity.
+    - rewrite py_getitem_nonneg by (fold n; lia). exact Hb. }
+  rewrite Hget.
+  assert (Hin : In b lst) by (eapply nth_error_In; exact Hb).
+  destruct (index_found (lst, all) b HI Hin) as (a1 & a2 & Hall & Hidx).
+  cbn [fst snd] in Hall, Hidx. rewrite Hidx. cbn [fst snd].
+  (* the first textual occurrence of b in all is the right one *)
+  assert (Hsplit : groups_of a1 = l1 /\ groups_of a2 = l2).
+  { apply (nodup_split_unique b); [rewrite <- Hl; exact Hnd|].
+    rewrite <- Hl, <- Hs, Hall, groups_of_app. reflexivity. }
+  destruct Hsplit as [Hg1 Hg2].
+  unfold py_insert at 1.
+  assert (Hza : zlen all = Z.of_nat (length a1) + zlen a2 + 1).
+  { rewrite Hall, zlen_app, zlen_cons. unfold zlen. lia. }
+  pose proof (zlen_nonneg a2) as Hz2.
+  rewrite norm_insert_id by lia.
+  replace (Z.to_nat (Z.of_nat (length a1) + 1)) with (S (length a1)) by lia.
+  rewrite insert_at_spec. rewrite Hall at 1 2.
+  destruct (firstn_S_split a1 (IG b) a2) as [-> ->].
+  rewrite !groups_of_app, !groups_of_cons, Hg1, Hg2. simpl groups_of. rewrite app_nil_r.
+  destruct it as [g|w]; unfold lst1; simpl.
+  - rewrite Hl1, Hk, Hl. destruct (firstn_S_split l1 b l2) as [-> ->]. reflexivity.
+  - rewrite Hl, <- app_assoc. reflexivity.
+Qed.
+
+Lemma ref_extend_prefix args : forall l, exists t, fst (ref_extend l args) = l ++ t.
+Proof.
+  induction args as [|a r IH]; intro l; simpl.
+  - exists []. rewrite app_nil_r. reflexivity.
+  - destruct (spec_classify a) as [g| |].
+    + destruct (IH (l ++ [g])) as [t ->]. exists (g :: t). rewrite <- app_assoc. reflexivity.
+    + apply IH.
+    + exists []. rewrite app_nil_r. reflexivity.
+Qed.
+
+Lemma NoDup_app_l {A} (a b : list A) : NoDup (a ++ b) -> NoDup a.
+Proof.
+  induction a as [|x t IH]; intro H; [constructor|].
+  simpl in H. inversion H as [|? ? Hni Ht]; subst. constructor.
+  - intro Hin. apply Hni. apply in_or_app. left. exact Hin.
+  - apply IH. exact Ht.
+Qed.
+
+Lemma sync_extend args : forall st, Forall ws_item (snd st) -> synced st ->
+  NoDup (fst (fst (m_extend st args))) -> synced (fst (m_extend st args)).
+Proof.
+  induction args as [|a t IH]; intros st Hw Hs Hnd; [exact Hs|].
+  assert (HI : Inv st).
+  { split; [rewrite Hs; apply Permutation_refl | exact Hw]. }
+  destruct (m_append_ok st a HI) as (H1 & H2 & H3).
+  cbn [m_extend] in *. destruct (m_append st a) as [st1 o1] eqn:Ea.
+  cbn [fst snd] in *.
+  assert (Hst1 : NoDup (fst st) -> synced st1).
+  { intro Hn0. pose proof (sync_insert st (zlen (fst st)) a Hw Hs Hn0) as X.
+    unfold m_append in Ea. rewrite Ea in X. exact X. }
+  cbn [ref_extend] in H1, H2.
+  destruct (spec_classify a) as [g| |]; cbn [fst snd] in H1, H2; subst o1.
+  - (* appended a group: the final list extends fst st1 = fst st ++ [g] *)
+    destruct (m_extend_ok t st1 H3) as (E1 & _ & _).
+    destruct (ref_extend_prefix t (fst st1)) as [tl Htl].
+    rewrite E1, Htl, H1 in Hnd.
+    apply IH; [apply H3 | | rewrite E1, Htl, H1; exact Hnd].
+    apply Hst1. apply NoDup_app_l in Hnd. apply NoDup_app_l in Hnd. exact Hnd.
+  - destruct (m_extend_ok t st1 H3) as (E1 & _ & _).
+    destruct (ref_extend_prefix t (fst st1)) as [tl Htl].
+    rewrite E1, Htl, H1 in Hnd.
+    apply IH; [apply H3 | | rewrite E1, Htl, H1; exact Hnd].
+    apply Hst1. apply NoDup_app_l in Hnd. exact Hnd.
+  - cbn [fst] in *. apply Hst1. rewrite <- H1. exact Hnd.
+Qed.
+
+Lemma sync_step st o : Forall ws_item (snd st) -> synced st ->
+  NoDup (fst st) -> NoDup (fst (fst (m_step st o))) ->
+  synced (fst (m_step st o)).
+Proof.
+  intros Hw Hs Hnd Hnd'.
+  assert (HI : Inv st) by (split; [rewrite Hs; apply Permutation_refl | exact Hw]).
+  destruct o as [a|args|i a|a|i| | |i|lo hi|a]; cbn [m_step] in *.
+  - unfold m_append. apply sync_insert; assumption.
+  - apply sync_extend; assumption.
+  - apply sync_insert; assumption.
+  - (* remove: first occurrence on both sides, duplicates or not *)
+    destruct st as [lst all]. unfold synced in *. cbn [fst snd] in *.
+    unfold m_remove. destruct (coerce a) as [it|] eqn:Hc; [|exact Hs].
+    destruct it as [g|w].
+    + pose proof (groups_of_remove g all Hw) as Hr. rewrite Hs in Hr.
+      rewrite (py_remove_ext (fun g0 => item_eqb (IG g0) (IG g)) (fun x => group_eqb x g))
+        by (intro; apply item_eqb_group_eqb).
+      destruct (py_remove (fun x => item_eqb x (IG g)) all) as [all1|]; [|exact Hs].
+      simpl in Hr. rewrite <- Hr. reflexivity.
+    + assert (Hsp : is_space w = true) by (apply (coerce_ws a (IW w) Hc)).
+      rewrite (py_remove_false (fun g => item_eqb (IG g) (IW w)))
+        by (intro; apply group_eq_ws_false; exact Hsp).
+      destruct (py_remove (fun x => item_eqb x (IW w)) all) as [all1|] eqn:Ea; [|exact Hs].
+      cbn [fst snd].
+      destruct (py_remove_some _ _ _ Ea) as (a1 & x & a2 & -> & -> & Hx).
+      destruct x as [h|w'].
+      * rewrite group_eq_ws_false in Hx by exact Hsp. discriminate.
+      * rewrite groups_of_app in *. exact Hs.
+  - destruct st as [lst all]. unfold synced in *. cbn [fst snd] in *.
+    unfold m_pop in *. cbv zeta in *. rewrite py_pop_ref in *.
+    destruct (ref_index (zlen lst) _) as [k|]; [|exact Hs].
+    destruct (nth_error lst k) as [g|] eqn:En; [|exact Hs].
+    destruct (nth_error_split lst k En) as (l1 & l2 & Hl & Hlen).
+    assert (Hin : In g lst) by (eapply nth_error_In; exact En).
+    destruct (index_found (lst, all) g HI Hin) as (a1 & a2 & Hall & Hidx).
+    cbn [fst snd] in Hall, Hidx. subst all. rewrite Hidx, py_pop_at_split. cbn [fst snd].
+    assert (Hsplit : groups_of a1 = l1 /\ groups_of a2 = l2).
+    { apply (nodup_split_unique g); [rewrite <- Hl; exact Hnd|].
+      rewrite <- Hl, <- Hs, groups_of_app. reflexivity. }
+    destruct Hsplit as [Hg1 Hg2].
+    subst k. rewrite Hl, firstn_skipn_split, groups_of_app, Hg1, Hg2. reflexivity.
+  - unfold synced in *. cbn [fst snd]. rewrite groups_of_rev, Hs. reflexivity.
+  - reflexivity.
+  - destruct (py_getitem i (fst st)); exact Hs.
+  - destruct (m_new _) as [st' o']. destruct o'; exact Hs.
+  - exact Hs.
+Qed.
+
+Example sync_step_hyp :
+  let st : state := ([ga; ka; gb], [IW s_sp; IG ga; IG ka; IG gb]) in
+  let o := OpInsert 2 (AS s_b_grp) in
+  synced st /\ NoDup (fst st) /\
+  fst (m_step st o) = ([ga; ka; (true, [98]); gb], [IW s_sp; IG ga; IG ka; IG (true, [98]); IG gb]).
+Proof.
+  vm_compute. split; [reflexivity|]. split; [|reflexivity].
+  repeat constructor; simpl; intuition discriminate.
+Qed.
+
+Lemma sync_run ops : forall st, Forall ws_item (snd st) -> synced st -> NoDup (fst st) ->
+  Forall (fun r : state * out => NoDup (fst (fst r))) (m_run st ops) ->
+  Forall (fun r : state * out => synced (fst r)) (m_run st ops).
+Proof.
+  induction ops as [|o t IH]; intros st Hw Hs Hnd Hall; cbn [m_run] in *; [constructor|].
+  inversion Hall as [|? ? Hn1 Hrest]; subst.
+  assert (HI : Inv st) by (split; [rewrite Hs; apply Permutation_refl | exact Hw]).
+  assert (Hs1 : synced (fst (m_step st o))) by (apply sync_step; assumption).
+  constructor; [exact Hs1|].
+  apply IH; [apply (step_inv st o HI) | exact Hs1 | exact Hn1 | exact Hrest].
+Qed.
+
+Lemma synced_without_duplicates : forall (init : list arg) (ops : list op),
+  Forall (fun r : state * out => NoDup (fst (fst r))) (m_new init :: m_run (fst (m_new init)) ops) ->
+  Forall (fun r : state * out => groups_of (snd (fst r)) = fst (fst r))
+         (m_new init :: m_run (fst (m_new init)) ops).
+Proof.
+  intros init ops Hall. inversion Hall as [|? ? Hn0 Hrest]; subst.
+  assert (Hs0 : synced (fst (m_new init))).
+  { unfold m_new in *. apply sync_extend; [constructor | reflexivity | exact Hn0]. }
+  constructor; [exact Hs0|].
+  apply (sync_run ops (fst (m_new init))); [apply m_new_ok | exact Hs0 | exact Hn0 | exact Hrest].
+Qed.
+
+Example synced_without_duplicates_hyp :
+  let init := [AG ga; AS s_sp; AS s_b_grp] in
+  let ops := [OpInsert 1 (AG gb); OpReverse; OpPop (Some 0); OpAppend (AG ka)] in
+  map (fun r : state * out => fst (fst r)) (m_new init :: m_run (fst (m_new init)) ops) =
+    [ [ga; (true, [98])]; [ga; gb; (true, [98])]; [(true, [98]); gb; ga]; [gb; ga]; [gb; ga; ka] ] /\
+  Forall (fun r : state * out => NoDup (fst (fst r))) (m_new init :: m_run (fst (m_new init)) ops).
+Proof.
+  vm_compute. split; [reflexivity|].
+  repeat constructor; simpl; intuition discriminate.
 Qed.
